@@ -56,7 +56,7 @@ def run(ctx):
                 "maximum, range, explicit formula, re-application with the reported parameters) and every output "
                 "compared with the Lean definitions run on IEEE doubles; non-trivial = at least two distinct values")
     rng = ctx.rng
-    n = 2500 if ctx.thorough else 400
+    n = 12000 if ctx.thorough else 400
     ops, meta = [], []
     for it in range(n):
         kind, D = gen_array(rng)
